@@ -8,6 +8,8 @@ pub struct Stdin {
     stdin: io::Stdin,
     /// Command must be stored somewhere to be referenced.
     buffer: String,
+    /// Byte which was read while decoding a malformed character, but does not belong to it.
+    pending: Option<u8>,
 }
 
 impl Stdin {
@@ -15,12 +17,46 @@ impl Stdin {
         Self {
             stdin,
             buffer: String::with_capacity(INITIAL_BUFFER_CAPACITY),
+            pending: None,
         }
     }
 
     /// `None` indicates EOF.
+    ///
+    /// Input which is not valid UTF-8 yields one replacement character ('\u{fffd}') per malformed
+    /// sequence, so that the offending command is rejected like any other unknown text.
     fn read_char(&mut self) -> Option<char> {
-        read_char_from_bytes(|| self.read_byte()).expect("uh oh")
+        const REPLACEMENT_CHAR: char = '\u{FFFD}';
+
+        let first = match self.pending.take() {
+            Some(byte) => byte,
+            None => self.read_byte()?,
+        };
+        let Some(utf8_len) = Utf8Position::from(first).len() else {
+            // Stray continuation byte
+            return Some(REPLACEMENT_CHAR);
+        };
+
+        let mut bytes = [first, 0, 0, 0];
+        #[allow(clippy::needless_range_loop)]
+        for i in 1..utf8_len {
+            match self.read_byte() {
+                Some(byte) if Utf8Position::from(byte).is_continuation() => bytes[i] = byte,
+                // Sequence cut short by another character: keep that byte for the next call
+                Some(byte) => {
+                    self.pending = Some(byte);
+                    return Some(REPLACEMENT_CHAR);
+                }
+                // Sequence cut short by EOF
+                None => return Some(REPLACEMENT_CHAR),
+            }
+        }
+
+        match std::str::from_utf8(&bytes[0..utf8_len]) {
+            Ok(string) => string.chars().next(),
+            // Overlong encoding, surrogate, or beyond U+10FFFF
+            Err(_) => Some(REPLACEMENT_CHAR),
+        }
     }
 
     /// `None` indicates EOF.
@@ -42,42 +78,6 @@ impl Stdin {
         }
         Some(buf[0])
     }
-}
-
-fn read_char_from_bytes<F>(mut next_byte: F) -> Result<Option<char>, ()>
-where
-    F: FnMut() -> Option<u8>,
-{
-    // TODO(refactor): Make this nicer
-    let Some(byte) = next_byte() else {
-        return Ok(None);
-    };
-
-    let mut bytes = [byte, 0, 0, 0];
-
-    let utf8_position = Utf8Position::from(byte);
-    let Some(utf8_len) = utf8_position.len() else {
-        return Err(());
-    };
-
-    #[allow(clippy::needless_range_loop)]
-    for i in 1..utf8_len {
-        let Some(byte) = next_byte() else {
-            return Err(());
-        };
-        if !Utf8Position::from(byte).is_continuation() {
-            return Err(());
-        }
-        bytes[i] = byte;
-    }
-
-    let string = std::str::from_utf8(&bytes[0..utf8_len]).map_err(|_| ())?;
-    let mut chars = string.chars();
-    let ch = chars.next().ok_or(())?;
-    if chars.next().is_some() {
-        return Err(());
-    }
-    Ok(Some(ch))
 }
 
 /// Position of byte inside UTF-8 character
